@@ -105,9 +105,9 @@ XferStart == /\ Is("xfer.start") /\ E.oid \in armed /\ E.oid \notin inflight
              /\ E.t >= notBefore[E.oid]                                                             \* C15 Retry-After
              /\ U(<<maxret, nwatch, known, marked, completed, noneed, errd, wg, owed, pnew, aborted, retries,
                     awaiting, fatal, expect, consumed, notBefore, laterRetry>>)
-XferEnd == /\ IsIn({"xfer.end.ok", "xfer.end.retriable", "xfer.end.fatal", "xfer.end.later"})
+XferEnd == /\ IsIn({"xfer.end.ok", "xfer.end.retriable", "xfer.end.fatal", "xfer.end.unproc", "xfer.end.later"})
            /\ E.oid \in inflight /\ inflight' = inflight \ {E.oid} /\ awaiting' = awaiting \cup {E.oid}
-           /\ fatal' = IF E.ev = "xfer.end.fatal" THEN fatal \cup {E.oid} ELSE fatal
+           /\ fatal' = IF E.ev \in {"xfer.end.fatal", "xfer.end.unproc"} THEN fatal \cup {E.oid} ELSE fatal
            /\ notBefore' = IF E.ev = "xfer.end.later" THEN [notBefore EXCEPT ![E.oid] = E.t + E.n] ELSE notBefore
            /\ laterRetry' = IF E.ev = "xfer.end.later" THEN laterRetry \cup {E.oid} ELSE laterRetry
            /\ U(<<maxret, nwatch, known, marked, completed, noneed, errd, wg, owed, pnew, aborted, retries, attempts,
